@@ -10,11 +10,14 @@ class Unsupported(Exception):
 
 
 class EnumEval:
-    def __init__(self, facts, is_subject, interesting):
-        """is_subject(expr, env) -> bool; interesting(call expr) -> bool for the effects to collect"""
+    def __init__(self, facts, is_subject, interesting, carrier=None):
+        """is_subject(expr, env) -> bool; interesting(call expr) -> bool for the effects to collect.
+        carrier: substring of a record type; when given, the subject is recognised by type in any function (a field of an object
+        of that type), so predicates that receive the whole object are evaluated with the same is_subject."""
         self.facts = facts
         self.is_subject = is_subject
         self.interesting = interesting
+        self.carrier = carrier
 
     def table(self, f, kinds):
         out = {}
@@ -60,10 +63,15 @@ class EnumEval:
                 idx = [i for i, a in enumerate(e['args']) if self.is_subject(strip_casts(a), env)]
                 if len(idx) == 1 and idx[0] < len(g['params']):
                     return self._call_pred(g, g['params'][idx[0]]['d'], K, depth + 1)
+                if self.carrier and any(self.carrier in (strip_casts(a).get('cty') or '') for a in e['args']):
+                    return self._call_pred(g, None, K, depth + 1)
         return None
 
     def _call_pred(self, g, pd, K, depth):
-        sub = EnumEval(self.facts, lambda x, env: x is not None and x.get('k') == 'ref' and x.get('d') == pd, lambda c: False)
+        if pd is None:
+            sub = EnumEval(self.facts, self.is_subject, lambda c: False, self.carrier)
+        else:
+            sub = EnumEval(self.facts, lambda x, env: x is not None and x.get('k') == 'ref' and x.get('d') == pd, lambda c: False)
         sub.ret = []
         try:
             sub._exec(g['body'], K, {}, depth)
